@@ -290,3 +290,33 @@ _c["level_text"] += (" The filter parameter's JSON codec is modelled (Model/Filt
     "and case-variant keys, unknown members, null elements, malformed texts) and labels.")
 _c["level_note"] += (" The filter codec model reads compact JSON (no white space between tokens, no surrogate escapes, well-formed UTF-8): the generator "
     "stays inside; float64 printing is a parameter (identity on canonical integers up to 2^53 in the driver).")
+
+# Work package D: two property-theorem files over existing models.
+# C17S (Props/C17S.lean, Spec/SoftEdit.lean, Proofs/SoftEditLemmas.lean): a SoftResource whose type
+# is edited while it holds values refines a plain map from the current type's field names to values.
+_c = PROPS["C17"]
+_c["modules"] = list(_c.get("modules", ["C17"])) + ["C17S"]
+_c["theorems"] = list(_c["theorems"]) + ["C17S_step", "C17S_reads", "C17S_refines_from", "C17S_init", "C17S_refines", "C17S_typed",
+    "C17S_addAttr_zero", "C17S_addAttr_taken", "C17S_addRel_zero", "C17S_removeField", "C17S_setType_kept", "C17S_setType_fresh",
+    "C17S_set_get", "C17S_set_after_edit", "C17S_set_after_addAttr"]
+_c["level_text"] += (" A SoftResource whose type is edited while it holds values (Set, AddAttr, AddRel, RemoveField, SetType in any order) refines, "
+    "by induction over every operation list in a decidable domain, a plain map from the current type's field names to values whose step is written "
+    "without check(): zero value when a field (re)appears, ill-typed Sets ignored, AddAttr/AddRel of a taken name a no-op, RemoveField drops name and "
+    "value, SetType keeps exactly the values of the names that are fields of both types (C17S_refines, C17S_reads; corollaries C17S_addAttr_zero, "
+    "C17S_removeField, C17S_setType_kept - also across two SetType calls with no read in between -, C17S_setType_fresh, C17S_set_after_edit); every "
+    "value read stays acceptable for its field's current definition or is its zero value (C17S_typed). The Go-side oracle is the expect map of suite "
+    "resource's soft-edit section.")
+_c["level_note"] += (" C17S domain: AddAttr/AddRel names and SetType's field names are not 'id'; SetType's new type is keyed (key = name, attribute and "
+    "relationship names disjoint) and keeps the definition of the names it keeps (the C19 decision; needed for C17S_typed only). Not assumed: that the "
+    "start resource's stored values are keyed by fields of its type.")
+# C06R (Props/C06R.lean): the attribute half of C06's last clause - re-marshaling an accepted attribute
+# value writes the canonical JSON of what the payload's literal denotes.
+_c = PROPS["C06"]
+_c["modules"] = list(_c.get("modules", ["C06"])) + ["C06R"]
+_c["theorems"] = list(_c["theorems"]) + ["C06R_printInt_intLit", "C06R_null", "C06R_int", "C06R_bool", "C06R_string", "C06R_time", "C06R_bytes",
+    "C06R_remarshal_attr"]
+_c["level_text"] += (" Re-marshaling, attribute half (Props/C06R.lean): whenever unmarshalToType accepts a raw value, the JSON written for the stored "
+    "value (encodeAttr) is the canonical JSON of what the literal denotes (Spec.denotedJson, written without strconv or the encoder): null for null "
+    "(nullable attributes only), the number printInt n for an integer literal denoting n - and that literal denotes n again -, the booleans, and the "
+    "JSON string of the decoded string, of formatTime t, of the base64 of the decoded bytes (nil and empty both \"\") (C06R_int, C06R_bool, "
+    "C06R_string, C06R_time, C06R_bytes, C06R_null, combined in C06R_remarshal_attr).")
